@@ -21,6 +21,7 @@ OUT = os.path.join(ROOT, "harness", "gen", "c03")
 
 INT_GO = {"": "int64", "int32": "int32", "int64": "int64", "uint32": "uint32", "uint64": "uint64"}
 NUM_GO = {"": "float64", "double": "float64", "float": "float32"}
+STR_FORMATS = {"uuid": "strfmt.UUID", "email": "strfmt.Email", "hostname": "strfmt.Hostname"}
 SEP = {"": ",", "csv": ",", "pipes": "|", "ssv": " ", "tsv": "\t"}
 
 CASES = []
@@ -93,6 +94,8 @@ def scalar_constraints(s, v, kind):
             r.append(OR(*["vStrEq(%s, %s)" % (v, json.dumps(e)) for e in s["enum"]]))
         if "pattern" in s:
             r.append("vHasPrefixRef(%s, %s)" % (v, json.dumps(s["pattern"][1:])))
+        if s.get("format") in STR_FORMATS:
+            r.append("fmtok")
     elif kind == "bool":
         if "enum" in s:
             r.append(OR(*[(v if e else "!" + v) for e in s["enum"]]))
@@ -111,7 +114,7 @@ def gotype(s):
     if t == "number":
         return NUM_GO[f]
     if t == "string":
-        return "string"
+        return STR_FORMATS.get(f, "string")
     if t == "boolean":
         return "bool"
     if t == "array":
@@ -150,6 +153,8 @@ def gen_text(c, s, tag, maxlen, forbid):
         v = c.fresh("v")
         c.emit("%s := vTruthyRef(%s)" % (v, raw))
         return raw, "true", v
+    if s.get("format") in STR_FORMATS:
+        return raw, "fmtparses", raw
     return raw, "true", raw
 
 
@@ -340,7 +345,7 @@ def add_case(family, desc, p):
         post.append("}")
         c.post = post
     CASES.append(c)
-    if "default" not in p and not (p["type"] == "array" and p["items"]["type"] == "array"):
+    if "default" not in p and not (p["type"] == "array" and p["items"]["type"] == "array") and family != "format":
         INTEROP.append((c, p))
 
 
@@ -382,6 +387,15 @@ def build():
         add_case("string", "string %s optional with default" % vn, dict(base, **{"in": "query", "default": "ab"}))
         add_case("string", "string %s required allowEmptyValue" % vn, dict(base, **{"in": "query", "required": True, "allowEmptyValue": True}))
         add_case("string", "string %s required allowEmptyValue in formData" % vn, dict(base, **{"in": "formData", "required": True, "allowEmptyValue": True}))
+    # string formats resolved through the registry
+    for f, extra in [("uuid", {}), ("email", {"maxLength": 2}), ("hostname", {"enum": ["ab", "n/a"]})]:
+        base = {"type": "string", "format": f}
+        base.update(extra)
+        for loc in ["query", "header"]:
+            add_case("format", "string/%s required in %s" % (f, loc), dict(base, **{"in": loc, "required": True}))
+            add_case("format", "string/%s optional in %s" % (f, loc), dict(base, **{"in": loc}))
+        add_case("format", "string/%s in path" % f, dict(base, **{"in": "path", "required": True}))
+        add_case("format", "array of string/%s" % f, {"in": "query", "type": "array", "items": dict(base), "maxItems": 2})
     # booleans
     for loc in locs:
         add_case("boolean", "boolean required in %s" % loc, {"in": loc, "type": "boolean", "required": True})
@@ -452,9 +466,11 @@ def write():
         L.append("// %s: %s" % (c.name, c.desc))
         L.append("func v%s() {" % c.name)
         L.append("\tname := %s" % json.dumps(c.name + " (" + c.desc + ")"))
+        L.append('\tfmtparses, fmtok := vBool("text.parses"), vBool("text.isWellFormed")')
+        L.append("\t_, _ = fmtparses, fmtok")
         L += c.lines
         L.append("\tref := %s" % c.ref)
-        L.append("\terr := o.bindP(rawData, hasKey, nil)")
+        L.append("\terr := o.bindP(rawData, hasKey, vFormats{parses: fmtparses, valid: fmtok})")
         L.append('\tvCover("%s")' % c.family)
         L.append("\tvCheckVerdict(err == nil, ref, name)")
         L.append("\tif err == nil {")
